@@ -274,6 +274,9 @@ BATTERY_TASKS = [
     {"vars": [["cm", [-10.0] * 12, [10.0] * 12]], "obj": [{"fam": "rastrigin", "p": {"shift": 0.2}}]},            # 12 dimensions
     {"vars": [["cm", [0.0] * 30, [10.0] * 30]], "obj": [{"fam": "sphere", "p": {"shift": 0.0}}]},                 # 30 dimensions, zero bounds
     {"vars": [["cm", [-5.0, -5.0], [5.0, 5.0]]], "obj": [{"fam": "sphere", "p": {"shift": 0.3}}], "cycles": 40},  # long run (convergence)
+    {"vars": [["cm", [-10.0, -10.0], [10.0, 10.0]]], "obj": [{"fam": "plateau", "p": {"q": 5.0}}], "cycles": 20},     # 0..4: coarse plateau
+    {"vars": [["b", 4]], "obj": [{"fam": "abs", "p": {"shift": 0.0}}], "cycles": 13},                             # 16 points, integer costs
+    {"vars": [["d", [0, 1, 2]], ["d", [0, 1, 2]]], "obj": [{"fam": "abs", "p": {"shift": 1.0}}], "cycles": 13},   # 9 points, ties
 ]
 
 
@@ -340,6 +343,8 @@ def boundary_variants(opt, with_kind=False):
                 if c[0] > c[1] and add(k, c):                # a range given in descending order
                     break
             add(k, [v[0], v[0]])                             # degenerate range
+            for c in ([v[0] * 0.6, v[1]], [v[0] * 1.4, v[1]], [v[0], v[1] * 0.7], [v[0], v[1] * 1.3]):
+                add(k, c, "interior")                        # each end moved inside what the validator accepts
     return out
 
 
@@ -377,6 +382,40 @@ def boundary_battery():
 
 def boundary_indices(all_reps=False):
     return [k for k, c in enumerate(boundary_battery()) if all_reps or c["rep"] == 0]
+
+
+_SMALL = None
+
+
+def small_population_battery():
+    """populations far below the documented scale (valid configurations all the same): whole-population ties become likely.
+    Used by the result-level checks only (C01 C02 C03 C10 C15 C17); failures of algorithms that cannot run with so few agents
+    are not judged anywhere (C05/C06 do not use this battery)."""
+    global _SMALL
+    if _SMALL is not None:
+        return _SMALL
+    out = []
+    tasks_ = [
+        {"vars": [["cm", [-10.0, -10.0], [10.0, 10.0]]], "obj": [{"fam": "plateau", "p": {"q": 5.0}}], "minmax": "min"},
+        {"vars": [["cm", [-10.0, -10.0], [10.0, 10.0]]], "obj": [{"fam": "plateau", "p": {"q": 5.0}}], "minmax": "max"},
+        {"vars": [["cm", [-10.0, -10.0, -10.0], [10.0, 10.0, 10.0]]], "obj": [{"fam": "sphere", "p": {"shift": 0.0}}], "minmax": "min"},
+    ]
+    for a, opt in enumerate(opt_names()):
+        base = dict(base_configs()[opt])
+        base["fitness_error"] = None
+        sizes = []
+        for p_ in (4, 5, 6, 8, 3):
+            if len(sizes) < 2 and config_valid(opt, dict(base, population_size=p_, max_cycles=40)):
+                sizes.append(p_)
+        for p_ in sizes:
+            for t, task in enumerate(tasks_):
+                for sd in range(2):
+                    spec = {"vars": task["vars"], "obj": task["obj"], "weights": None, "minmax": task["minmax"],
+                            "seed": 900000 + 1000 * a + 100 * p_ + 10 * t + sd}
+                    out.append({"i": f"s{len(out)}", "opt": opt, "cfg": dict(base, population_size=p_, max_cycles=40),
+                                "cfg_class": "small-population", "spec": spec, "mode": "serial", "workers": None})
+    _SMALL = out
+    return out
 
 
 def battery_inf():
